@@ -13,6 +13,7 @@ Step ==
   \/ \E i \in Live : \E aa \in {1, 2, 4} : \E g \in {0, 2} : UpdateAA(i, aa, g)
   \/ \E P \in Periods \cup {99} : Tick(P)
   \/ \E i \in Live : \E u \in {1, 2} : RemoveUrr(i, u)
+  \/ \E i \in Live : \E P \in Periods : AddUrr(i, 3, P)
   \/ \E sd \in 1..2 : \E u \in {1, 3} : \E c \in {2, 256, 65536} : KernelReport(sd, u, c)
 Next == turns < MaxTurns /\ Step
 Spec == Init /\ [][Next]_vars
